@@ -197,6 +197,8 @@ pub enum Event {
         levels_before: Vec<Vec<FileDump>>,
         /// entries of the new table
         entries: Vec<Entry>,
+        /// the flush ran inside a table compaction (the new table is then kept at level 0)
+        during_table_compaction: bool,
     },
     /// file moved from `level` to `level + 1` without rewriting
     TrivialMove {
@@ -1078,4 +1080,29 @@ pub fn block_seek(
         }
     }
     Ok(positions)
+}
+
+/// Run the real `Version::pick_level_for_memtable_output` on a synthetic version.
+pub fn pick_level(
+    options: &crate::DbOptions,
+    levels: &[Vec<FileDump>],
+    smallest_user_key: &[u8],
+    largest_user_key: &[u8],
+) -> Result<usize, String> {
+    use crate::versioning::file_metadata::FileMetadata;
+    let table_cache = Arc::new(crate::table_cache::TableCache::new(options.clone(), 10));
+    let mut version = crate::versioning::version::Version::new(options.clone(), &table_cache, 0, 0);
+    for (idx, files) in levels.iter().enumerate().take(crate::config::MAX_NUM_LEVELS) {
+        for file in files {
+            let mut meta = FileMetadata::new(file.number);
+            meta.set_file_size(file.size);
+            meta.set_smallest_key(Some(to_internal_key(&file.smallest)?));
+            meta.set_largest_key(Some(to_internal_key(&file.largest)?));
+            version.files[idx].push(Arc::new(meta));
+        }
+    }
+    std::panic::catch_unwind(std::panic::AssertUnwindSafe(|| {
+        version.pick_level_for_memtable_output(smallest_user_key, largest_user_key)
+    }))
+    .map_err(|_| "panic".to_string())
 }
